@@ -77,7 +77,7 @@ pub fn compare(got_dims: &[usize], got: &[f64], want: &T<f64>, rule: Rule) -> Re
     let mut worst = 0.0f64;
     for (i, (g, w)) in got.iter().zip(&want.v).enumerate() {
         let ok = match rule {
-            Rule::Exact => g == w,
+            Rule::Exact => g == w || (g.is_nan() && w.is_nan()),
             Rule::Tol(scale) => {
                 let e = (g - w).abs();
                 let rel = e / (tau() * scale.max(1.0));
